@@ -134,8 +134,13 @@ def build_source(eng, p):
         for bi in range(p["basins"]):
             kind = ["file", "mapped", "internal"][bi % 3]
             if kind == "file":
+                # optionally with an explicit feature list that names a
+                # feature stored in this file and one only the basin has
                 hw.store_basin("b%d" % bi, "file", "hdf5",
-                               ["/d/o%d.rtdc" % bi], verify=False)
+                               ["/d/o%d.rtdc" % bi], verify=False,
+                               basin_feats=(["aspect", "deform"]
+                                            if p.get("basin_feats")
+                                            else None))
             elif kind == "mapped":
                 hw.store_basin("b%d" % bi, "file", "hdf5",
                                ["/d/m%d.rtdc" % bi], verify=False,
@@ -508,6 +513,8 @@ def cases(tier, seed):
         {"basins": 2}, {"basins": 3}, {"features": "scalar"},
         {"include_basins": False, "basins": 3}, {"include_logs": False},
         {"features": "scalar", "basins": 3},
+        {"basins": 1, "basin_feats": True},
+        {"features": "scalar", "basins": 3, "basin_feats": True},
     ]
     for v in variants:
         pp = dict(base)
@@ -655,6 +662,8 @@ def replay(case, params, v):
                                                       np.array([5., 6.])},
                                        verify=False)
                     else:
+                        if bi % 3 == 0 and p.get("basin_feats"):
+                            kw["basin_feats"] = ["aspect", "deform"]
                         hw.store_basin("b%d" % bi, "file", "hdf5",
                                        ["/d/o%d.rtdc" % bi], verify=False,
                                        **kw)
